@@ -407,6 +407,7 @@ class P(Prop):
         (M, "TV.C02.operate_show_value", "T3: composition - parse the printed statement with makeRPN's table, run the machine, purge: value = tree semantics, track unchanged"),
         (M, "TV.C02.makeRPN_chars_show", "T2': character-level makeRPN (the definition the driver runs, fuel = string length) returns the postfix form of every printed tree with plain atoms"),
         (M, "TV.C02.operate_string_value", "T3': from the rewritten string '#output=e' on (makeRPN on characters, __double_prime, stack machine, fetch, purge) operate returns the tree semantics and leaves the track as it was"),
+        (M, "TV.C02.operate_string_tokens", "string -> tokens: on the rewritten string of any statement 'lhs=e' with plain names operate does what it does on the postfix token list, so T3a-T3d apply to strings"),
         (M, "TV.C02.tree_semantics_pointwise", "T5: under the laws x+s=s+x, x*s=s*x, x*(1/s)=x/s, (1/x)*s=s/x the evaluator's tree semantics (literal folding, s+/sr- tables) equals evaluation observation by observation with numbers as constant vectors"),
         (M, "TV.C02.operate_string_pointwise", "end to end on the model: operate on the rewritten string '#output=e' returns the pointwise value of the tree and leaves the track unchanged"),
         (M, "TV.C02.operator_objects_agree", "T4: operator objects applied directly return the tree semantics of the one-node expression (a.b, a.number, number.a, f{a})"),
@@ -484,7 +485,7 @@ class P(Prop):
             cur += s
         return {"n": n, "x": vec() if not easy else [float(i + 1) for i in range(n)],
                 "y": [rng.choice([0.0, 1.0, -3.0, 2.5]) for _ in range(n)], "z": [rng.choice([0.0, 10.0, -1.0]) for _ in range(n)],
-                "t": ts, "feats": [["a", vec()], ["b", vec()]]}
+                "t": ts, "feats": [["a", vec()], ["b", vec()], ["speed_2", vec()]]}
 
     def fix_env(self, env):
         """NaN is not a coordinate"""
@@ -513,10 +514,10 @@ class P(Prop):
         if d <= 1 or rng.random() < 0.15:
             r = rng.random()
             if r < 0.55:
-                return ["var", rng.choice(NAMES + ["a", "b", "y", "z"])]
+                return ["var", rng.choice(NAMES + ["a", "b", "y", "z", "speed_2"])]
             if r < 0.95:
                 return ["num", rng.choice(LITS + ["3", "4", "0.25", "10"])]
-            return ["prime", rng.choice(["a", "b", "x"])]
+            return ["prime", rng.choice(["a", "b", "x", "speed_2"])]
         r = rng.random()
         if r < 0.62:
             o = rng.choice(BINOPS + ["+", "-", "*", "/"])
@@ -594,7 +595,7 @@ class P(Prop):
             for t in rng.sample(small, 5000):
                 emit(t, rng.choice(self.LHS), bare=rng.random() < 0.5, tries=3)
         # random deep trees
-        nrand = 80000 if thorough else 12000
+        nrand = 250000 if thorough else 12000
         for i in range(nrand):
             d = rng.choice([3, 4, 4, 5, 5, 6])
             t = self.rand_tree(rng, d)
@@ -603,12 +604,14 @@ class P(Prop):
             env = self.fix_env(self.rand_env(rng, easy=rng.random() < 0.4))
             lhs = rng.choice([None, None, "c", "a", "b", "x", "y", "z"])
             c = self.mk_case(t, env, lhs, bare=rng.random() < 0.5, spaces=rng.random() < 0.2, stars=rng.random() < 0.2)
+            if rng.random() < 0.2 and any(ch in c["expr"] for ch in "+-/*^><()='"):
+                c["via"] = "getitem"          # Track[expr] instead of Track.operate(expr)
             if self.in_domain(c):
                 out.append(c)
                 if i % 4 == 0:
                     out.append({"kind": "rpn", "tree": t, "s": show_pre(t)})
         # reflexive operators  lhs op= e   (meaning lhs = lhs op (e))
-        for i in range(4000 if thorough else 600):
+        for i in range(15000 if thorough else 600):
             rhs = self.rand_tree(rng, rng.choice([1, 2, 3, 4]))
             if has_call_of_constant(rhs):
                 continue
@@ -621,7 +624,7 @@ class P(Prop):
             if self.in_domain(c):
                 out.append(c)
         # operator objects applied directly
-        for i in range(10000 if thorough else 2500):
+        for i in range(30000 if thorough else 2500):
             env = self.fix_env(self.rand_env(rng))
             r = rng.random()
             outn = rng.choice(["c", "a", "b"])
@@ -689,6 +692,7 @@ class P(Prop):
             t["n"] = case["env"]["n"]
             t["sign"] = "bare" if case["bare"] else "paren"
             t["form"] = "reflexive" if case.get("reflex") else ("assign" if case["lhs"] else "value")
+            t["via"] = case.get("via", "operate")
         if case["kind"] == "op":
             t["form"] = case["form"]
         return t
@@ -707,7 +711,7 @@ class P(Prop):
             t = self.mk_track(case["env"])
             status, ret = "ok", None
             try:
-                ret = t.operate(case["expr"])
+                ret = t[case["expr"]] if case.get("via") == "getitem" else t.operate(case["expr"])
             except BaseException as e:
                 if isinstance(e, KeyboardInterrupt):
                     raise
